@@ -1,4 +1,5 @@
 (* C02 -- encoding then decoding a well-formed message returns the same message. *)
+From NV Require C19.Globals.
 From NV Require Import Lib.Base Codec.Lang Codec.Def Codec.Sem Codec.Total Codec.Dispatch Codec.GenDefs Codec.WF Codec.RoundTrip Codec.Stmt Codec.StmtProofs Codec.Final
   Gen.GenMsgs Gen.GenTypes.
 From Coq Require Import String.
@@ -47,8 +48,17 @@ Theorem C02_programs_are_encode_def : forall g m, In g all_msgs ->
   exec_enc nas_types g m = encode_def (def_of nas_types g) m.
 Proof. exact generated_encoder. Qed.
 
+(* the functions this property is about are functions of their arguments: the files it is anchored in declare
+   no package-level variable other than the pinned read-only tables (or a never-touched one of plain type) and
+   none of their functions writes, slices, takes the address of, passes on or calls a method of a
+   package-level variable (logger entries excepted) -- evaluated on the current source (C19/Globals.v) *)
+Theorem C02_anchor_files_keep_no_state :
+  Globals.hidden_state_free Globals.anchors_C02 = true.
+Proof. vm_compute. reflexivity. Qed.
+
 Print Assumptions C02_all_defs_ok.
 Print Assumptions C02_roundtrip.
 Print Assumptions C02_roundtrip_msg.
 Print Assumptions C02_roundtrip_programs.
 Print Assumptions C02_programs_are_encode_def.
+Print Assumptions C02_anchor_files_keep_no_state.
